@@ -41,11 +41,12 @@ def _used_base():
 
 
 def make(idle=True, logged=True, variant="A"):
-    """variant "A" / "B": the two signature tables of gateset_sig.  A trailing "d" ("Ad", "Bd") makes every
+    """variant "A" / "B": the two signature tables of gateset_sig; "As": plus stretched variants.  A trailing "d" ("Ad", "Bd") makes every
     definition a copy() of one already-used one-qubit definition with name, parameters and unitary replaced --
     the documented way to derive a gate from another."""
-    derived = variant.endswith("d")
-    variant = variant.rstrip("d")
+    stretched = "s" in variant[1:]
+    derived = "d" in variant[1:]
+    variant = variant[0]
     g = {
         "prepare_all": BusyGateDefinition("prepare_all"),
         "measure_all": BusyGateDefinition("measure_all"),
@@ -61,4 +62,12 @@ def make(idle=True, logged=True, variant="A"):
             g[name] = GateDefinition(name, [Parameter(n, KIND[k]) for n, k in params], ideal_unitary=u)
     if idle:
         g = add_idle_gates(g)
+    if stretched:
+        # variant "As": the set also holds a stretched variant <name>_s of every gate (one extra trailing float)
+        from jaqalpaq.core.stretch import stretched_gates
+        from .gateset_sig import STRETCH_SUFFIX
+
+        plain = {k: v for k, v in g.items() if k not in ("prepare_all", "measure_all", "I_prepare_all", "I_measure_all")}
+        for k, v in stretched_gates(plain, suffix=STRETCH_SUFFIX).items():
+            g.setdefault(k, v)
     return g
